@@ -324,7 +324,7 @@ Proof.
   - unfold emit. simpl. destruct (mem_nat u (g_cache c)); simpl; exact Hs.
   - (* MLoad u: the only step that writes a definition, and only when u is not cached *)
     destruct Hh as [_ [Hnew _]]. unfold emit. simpl. intro u0. specialize (Hs u0).
-    unfold is_def_write at 1. simpl. unfold is_def_write at 1. simpl.
+    unfold is_def_write at 1. simpl.
     destruct (Nat.eqb u0 u) eqn:E; simpl.
     + apply Nat.eqb_eq in E. subst u0. apply mem_nat_false in Hnew. rewrite Hnew in Hs. lia.
     + exact Hs.
